@@ -59,11 +59,26 @@ impl TestCase {
     /// outcome in regards to exit code and (STDOUT) output, or return an
     /// [`TestCaseError`]
     pub fn validate(&self, output: &Output) -> Result<()> {
-        if let ExitStatus::Code(exit_code) = output.exit_code {
-            let expected = self.exit_code.unwrap_or(0);
-            if exit_code != expected {
+        let expected = self.exit_code.unwrap_or(0);
+        match output.exit_code {
+            ExitStatus::Code(exit_code) => {
+                if exit_code != expected {
+                    return Err(TestCaseError::InvalidExitCode {
+                        actual: exit_code,
+                        expected,
+                    });
+                }
+            }
+            ExitStatus::Timeout(_) => return Err(TestCaseError::Timeout),
+            ExitStatus::Skipped => return Err(TestCaseError::Skipped),
+            // detached executions are not tests: nothing to compare but the
+            // (empty) output
+            ExitStatus::Detached => {}
+            // an execution that did not end in an exit code (e.g. killed by a
+            // signal, or not run at all after that) cannot be valid
+            ExitStatus::Unknown => {
                 return Err(TestCaseError::InvalidExitCode {
-                    actual: exit_code,
+                    actual: output.exit_code.as_code(),
                     expected,
                 });
             }
